@@ -102,7 +102,8 @@ def check_model(tool, seed, idx, known, n_repro=4):
         elif prim:
             viol.append({"prop": "C18", "key": K_PRIM_CB, "what": f"a header with a callback over a primitive payload (Callback_c_void__u32) does not compile after post-processing: the collect/count helpers use the Rust type name as a C type: {msg[:300]}"})
         else:
-            viol.append({"prop": "C18", "key": "C18:does-not-compile", "what": f"post-processed header rejected by {errs[0][0]} -std=c99: {msg}"})
+            carrier = re.search(r"unknown type name .(CBox_c_void|CArc_c_void).", msg)
+            viol.append({"prop": "C18", "key": "C18:does-not-compile" + (":undefined-carrier-type" if carrier else ""), "what": f"post-processed header rejected by {errs[0][0]} -std=c99: {msg}"})
     # ---- C18.2 reproducible
     digests = {hashlib.sha1(out.encode()).hexdigest()}
     for k in range(n_repro):
